@@ -106,16 +106,26 @@ impl Fails {
     pub fn new() -> Fails {
         Fails(Vec::new())
     }
+    /// Keeps the first failure per signature (at most 16 signatures).
     pub fn push(&mut self, sig: impl Into<String>, msg: impl Into<String>) {
-        if self.0.len() < 16 {
+        let sig = sig.into();
+        if self.0.len() < 16 && !self.0.iter().any(|f| f.sig == sig) {
             self.0.push(Fail::new(sig, msg));
         }
     }
     pub fn is_empty(&self) -> bool {
         self.0.is_empty()
     }
+    /// `Ok(pass)` when nothing failed. Otherwise `Err(failures)`; the accounting data is stashed
+    /// so that a case whose only failures are listed known findings is still counted with its
+    /// labels and evaluations.
     pub fn finish(self, pass: Pass) -> Verdict {
-        if self.0.is_empty() { Ok(pass) } else { Err(self.0) }
+        if self.0.is_empty() {
+            Ok(pass)
+        } else {
+            stash_pass(pass);
+            Err(self.0)
+        }
     }
 }
 
@@ -340,4 +350,16 @@ pub fn set_env(tier: Tier, tmp_dir: std::path::PathBuf) {
 
 pub fn env() -> &'static ShardEnv {
     ENV.get_or_init(|| ShardEnv { tier: Tier::Quick, tmp_dir: std::env::temp_dir() })
+}
+
+thread_local! {
+    static STASH: std::cell::RefCell<Option<Pass>> = const { std::cell::RefCell::new(None) };
+}
+
+pub fn stash_pass(p: Pass) {
+    STASH.with(|s| *s.borrow_mut() = Some(p));
+}
+
+pub fn take_stashed_pass() -> Option<Pass> {
+    STASH.with(|s| s.borrow_mut().take())
 }
